@@ -23,13 +23,14 @@ import (
 // descriptor is readable or a lambda is posted, and then does exactly what epollDispatcher.runLoop does.
 
 type vRouter struct {
-	d     map[int]*epollDispatcher
-	loops map[int]*vrt.Thread
-	stop  bool
+	d      map[int]*epollDispatcher
+	loops  map[int]*vrt.Thread
+	stop   bool
+	paused map[int]bool // a process whose event loop is not scheduled (a peer that stopped consuming)
 }
 
 func newVRouter() *vRouter {
-	return &vRouter{d: map[int]*epollDispatcher{}, loops: map[int]*vrt.Thread{}}
+	return &vRouter{d: map[int]*epollDispatcher{}, loops: map[int]*vrt.Thread{}, paused: map[int]bool{}}
 }
 
 func (r *vRouter) runLoop() error  { return nil }
@@ -64,8 +65,12 @@ func (r *vRouter) of() *epollDispatcher {
 // posted lambdas. "Wait" is a scheduling point that is enabled when epoll has something or a lambda is pending.
 func (r *vRouter) loop(d *epollDispatcher) {
 	var events [128]epollEvent
+	proc := vrt.Cur().Proc
 	for {
 		vrt.Point("epoll_wait", func() bool {
+			if r.paused[proc] {
+				return false
+			}
 			return r.stop || len(d.pendingLambda) > 0 || vrt.FdReadable(d.epollFd)
 		})
 		if r.stop {
@@ -241,6 +246,25 @@ func newEPair(o pairOpts) *ePair {
 	return p
 }
 
+// killServer emulates SIGKILL of process B: its threads stop for good and the kernel closes its descriptors
+// (the control connection's hang-up is what the surviving side then sees).
+func (p *ePair) killProc(proc int) {
+	vrt.KillProc(proc)
+	s := p.s
+	if proc == 1 {
+		s = p.c
+	}
+	if s != nil {
+		if c, ok := s.eventConn.(*connEventHandler); ok && c.file != nil {
+			c.file.Close()
+		}
+	}
+	if d := p.router.d[proc]; d != nil {
+		syscall.Close(d.epollFd)
+		d.epollFd = -1
+	}
+}
+
 func (p *ePair) inUse() int {
 	n := 0
 	for _, l := range p.bm.lists {
@@ -282,6 +306,7 @@ func (p *ePair) cleanup() {
 
 // bScenario is one session-level scenario explored with a deviation bound.
 type bScenario struct {
+	Live   bool // an execution that does not end within the step horizon is a violation
 	Name   string
 	Bound  int // quick bound
 	BoundT int // thorough bound
@@ -298,7 +323,7 @@ func runBScenarios(t *testing.T, prop string, scs []bScenario) {
 			b = sc.BoundT
 		}
 		name := fmt.Sprintf("%s/%s-bound%d", prop, sc.Name, b)
-		opts := vrt.Options{Bound: b, RacyTimers: sc.Racy, StepLimit: 20000}
+		opts := vrt.Options{Bound: b, RacyTimers: sc.Racy, StepLimit: 20000, FailOnHorizon: sc.Live}
 		if i == 0 {
 			w.determinism(name, opts, sc.Body)
 		}
